@@ -128,6 +128,11 @@ func remoteReadAt(client *http.Client, url string, p []byte, off int64) (n int, 
 		return 0, err
 	}
 	defer resp.Body.Close()
+	// Only a partial-content reply (or a full reply when reading from the start) carries the requested bytes;
+	// the body of an error reply must not be taken for file content.
+	if resp.StatusCode != http.StatusPartialContent && !(resp.StatusCode == http.StatusOK && off == 0) {
+		return 0, fmt.Errorf("unexpected status code %d for range request at offset %d", resp.StatusCode, off)
+	}
 	{
 		n, err := io.ReadFull(resp.Body, p)
 		if err != nil {
